@@ -12,7 +12,7 @@ RULE = (
     "n_iterations 1..6 and an integer passed to np.random.seed immediately before the call (the random swap choices); three sub-checks. "
     "learn: a recording sub-class of SupervisedOPF (defined in the harness) snapshots the training arrays at every fit and the predictions / validation labels at every predict; afterwards the multiset "
     "of (row bytes, label) over train+validation and all shapes must be unchanged, every iteration's accuracy is recomputed with the C20 reference, and the object's final forest must be the forest of an "
-    "iteration with maximal accuracy (node features/labels == that iteration's training snapshot, all node fields and predictions == a fresh fit on it). "
+    "iteration with maximal accuracy (node features/labels == that iteration's training snapshot, all node fields and predictions == a fresh fit on it); 1/6 of the learn cases attach a by-position distance matrix, 1/6 let the same object learn once before. "
     "relevance: after fit + one predict, with A(x) the exhaustive arg-min set and R the flagged nodes: R is ancestor-closed, and there is an assignment x -> c(x) in A(x) whose ancestor closure is exactly R "
     "(bipartite matching of R's leaves to queries; ties make the conqueror ambiguous). "
     "prune: at every iteration the rows passed to fit are exactly those flagged relevant in the previous model, the final node multiset is a sub-multiset of the original training multiset with labels intact, "
@@ -39,8 +39,15 @@ def _case(draw, t=None):
     pts = draw(gen.points(nt + nv, dim, kind))
     if draw(st.integers(0, 3)) > 0:  # make rows unique with an id coordinate (keeps multiset bookkeeping sharp)
         pts = [p + [i / 4.0] for i, p in enumerate(pts)]
-    return {"t": t, "nt": nt, "nv": nv, "X": pts, "Y": Y, "Yv": Yv, "n_iter": draw(st.integers(1, 6)), "seed": draw(st.integers(0, 2**32 - 1)),
+    case = {"t": t, "nt": nt, "nv": nv, "X": pts, "Y": Y, "Yv": Yv, "n_iter": draw(st.integers(1, 6)), "seed": draw(st.integers(0, 2**32 - 1)),
             "metric": draw(st.sampled_from(["log_squared_euclidean", "euclidean", "manhattan", "squared_euclidean"]))}
+    if t == "learn":
+        hist = draw(st.integers(0, 5))
+        if hist == 0:
+            case["pre"] = True  # distances by position from an attached matrix (learn has no index arguments)
+        elif hist == 1:
+            case["learn_before"] = True  # the same object has already learned once (on copies of the data, other random swaps)
+    return case
 
 
 def strategy(tier):
@@ -88,6 +95,16 @@ def check_learn(case):
     # the recording sub-class snapshots, at every predict, the predictions and the caller's validation labels as they are then
     Recording, log = _recording_class(Yv)
     m = libcall(Recording, distance=case["metric"])
+    P = None
+    if case.get("pre"):
+        ns = nt + nv
+        P = [[0.0 if a == b else float((a * 7 + b * 7 + a * b) % 5 + 1) for b in range(ns)] for a in range(ns)]
+        models.set_pre(m, P)
+    if case.get("learn_before"):
+        np.random.seed((case["seed"] + 1) % 2**32)
+        libcall(m.learn, Xt.copy(), Yt.copy(), Xv.copy(), Yv.copy(), case["n_iter"])
+        del log["fits"][:]
+        del log["predicts"][:]
     np.random.seed(case["seed"])
     libcall(m.learn, Xt, Yt, Xv, Yv, case["n_iter"])
     yv_log = [(pr["yv"], pr["preds"]) for pr in log["predicts"]]
@@ -115,6 +132,8 @@ def check_learn(case):
             why = "final nodes are not iteration %d's training set" % (i + 1)
             continue
         fresh = libcall(models.classes()["sup"], distance=case["metric"])
+        if P is not None:
+            models.set_pre(fresh, P)
         libcall(fresh.fit, np.array(snap["X"], dtype=float), np.array(snap["Y"], dtype=int))
         fs = models.node_state(fresh)
         same = all(fs[f] == s[f] for f in ("cost", "pred", "status", "predicted_label", "idx_nodes"))
@@ -133,6 +152,10 @@ def check_learn(case):
     swaps = sum(1 for i in range(1, iters) if log["fits"][i]["X"] != log["fits"][i - 1]["X"] or log["fits"][i]["Y"] != log["fits"][i - 1]["Y"])
     nontriv = iters >= 2 and swaps >= 1 and len(set(accs)) >= 2
     cl = ["learn", "iters=%d" % iters]
+    if P is not None:
+        cl.append("learn_pre_computed")
+    if case.get("learn_before"):
+        cl.append("learn_after_earlier_learn")
     if swaps:
         cl.append("swapped")
     if cands and cands[0] != iters - 1:
